@@ -9,6 +9,10 @@ class Undecided(Exception):
     """Construct outside the subset / missing contract: the function is undecided, never a violation."""
 
 
+class Impure(Exception):
+    """Raised in dry-run evaluation when a test cannot be evaluated eagerly (it would fork or raise)."""
+
+
 class PathEnd(Exception):
     """The current path ends here (loop iteration finished, contradictory assumption)."""
 
@@ -80,6 +84,7 @@ class Ctx:
         self.notes = []
         self.obl_seq = {}
         self.mode = "assume"
+        self.dry = False
         smt.reset_names()
 
     # ---- decisions -------------------------------------------------------------------------
@@ -102,6 +107,8 @@ class Ctx:
             feas = [i for i, c in enumerate(conds) if self.feasible(c)]
             if not feas:
                 raise PathEnd()
+            if self.dry and len(feas) > 1:
+                raise Impure()
             k = feas[0]
             for j in feas[1:]:
                 self.pending.append(self.trace + [j])
